@@ -22,13 +22,14 @@ import (
 
 	authenticationv1 "k8s.io/api/authentication/v1"
 	authorizationv1 "k8s.io/api/authorization/v1"
-	"k8s.io/apimachinery/pkg/runtime"
+	metav1 "k8s.io/apimachinery/pkg/apis/meta/v1"
 	"k8s.io/apiserver/pkg/authentication/authenticator"
 	"k8s.io/apiserver/pkg/authentication/user"
 	"k8s.io/apiserver/pkg/authorization/authorizer"
 	"k8s.io/client-go/kubernetes"
 	"k8s.io/client-go/kubernetes/fake"
-	clienttesting "k8s.io/client-go/testing"
+	authenticationv1client "k8s.io/client-go/kubernetes/typed/authentication/v1"
+	authorizationv1client "k8s.io/client-go/kubernetes/typed/authorization/v1"
 
 	tokwebhook "github.com/kubewharf/kubegateway/pkg/gateway/authentication/token/webhook"
 	sarwebhook "github.com/kubewharf/kubegateway/pkg/gateway/authorization/webhook"
@@ -64,7 +65,6 @@ type epRec struct {
 	inst int
 	name string // raw
 	info *clusters.EndpointInfo
-	cs   *fake.Clientset
 }
 
 type instRec struct {
@@ -123,6 +123,16 @@ func (p *provider) ClientFor(host string) (*clusters.ClusterInfo, kubernetes.Int
 		top.calls++
 		if top.kind == "tok" && top.calls == 2 && len(top.m.Mid1) > 0 {
 			w.runMacros(top.m.Mid1)
+		}
+		// the authorizer resolves the host once; should it ever resolve it again, the scheduled events come first
+		if top.kind == "sar" && top.calls == 2 && !top.midDone {
+			top.midDone = true
+			w.runMacros(top.m.Mid)
+		}
+		// likewise a third resolution by the authenticator
+		if top.kind == "tok" && top.calls == 3 && !top.midDone {
+			top.midDone = true
+			w.runMacros(top.m.Mid2)
 		}
 	}
 	c, client, err := w.mgr.ClientFor(host) // the REAL manager.ClientFor
@@ -218,65 +228,102 @@ func (w *world) sarAnswer(inst int, key string) (SarAns, bool) {
 	return SarAns{K: "st"}, known
 }
 
-func (w *world) newEndpoint(i *instRec, name string, healthy, disabled bool) *epRec {
-	cs := fake.NewSimpleClientset()
-	ep := &epRec{inst: i.id, name: name, cs: cs}
-	// the reactors are the cluster's oracle, seen through this endpoint
-	hit := func() *reqRec {
-		top := w.top()
-		if top == nil {
-			return nil
-		}
-		h := Hit{Inst: ep.inst, Ep: rig.Hex(ep.name), PickedInst: -2}
-		if top.lastPick != nil && top.lastPick.ep == ep {
-			h.ReadyAtPick = top.lastPick.ready
-			h.PickedInst = top.lastPick.inst
-		}
-		top.hits = append(top.hits, h)
-		return top
+// stubClient is a client-go fake clientset whose TokenReviews().Create and SubjectAccessReviews().Create are the
+// cluster's oracle, seen through one endpoint. (The fake's own reactor chain is not used for these two calls because
+// fake.Invokes holds a per-clientset lock while a reactor runs, which would deadlock a nested request that is
+// scheduled "while the review is in flight" and reaches the same endpoint.)
+type stubClient struct {
+	*fake.Clientset
+	w  *world
+	ep *epRec
+}
+
+type stubAuthn struct {
+	authenticationv1client.AuthenticationV1Interface
+	s *stubClient
+}
+type stubAuthz struct {
+	authorizationv1client.AuthorizationV1Interface
+	s *stubClient
+}
+type stubTokenReviews struct{ s *stubClient }
+type stubSARs struct{ s *stubClient }
+
+func (s *stubClient) AuthenticationV1() authenticationv1client.AuthenticationV1Interface {
+	return &stubAuthn{s.Clientset.AuthenticationV1(), s}
+}
+func (s *stubClient) AuthorizationV1() authorizationv1client.AuthorizationV1Interface {
+	return &stubAuthz{s.Clientset.AuthorizationV1(), s}
+}
+func (a *stubAuthn) TokenReviews() authenticationv1client.TokenReviewInterface { return &stubTokenReviews{a.s} }
+func (a *stubAuthz) SubjectAccessReviews() authorizationv1client.SubjectAccessReviewInterface {
+	return &stubSARs{a.s}
+}
+
+// hit logs that this endpoint was asked on behalf of the innermost running request.
+func (s *stubClient) hit() *reqRec {
+	top := s.w.top()
+	if top == nil {
+		return nil
 	}
-	cs.PrependReactor("create", "tokenreviews", func(action clienttesting.Action) (bool, runtime.Object, error) {
-		top := hit()
-		if top != nil && !top.midDone {
-			top.midDone = true
-			w.runMacros(top.m.Mid2)
-		}
-		tr := action.(clienttesting.CreateAction).GetObject().(*authenticationv1.TokenReview).DeepCopy()
-		ans := w.tokAnswer(ep.inst, tr.Spec.Token)
-		switch ans.K {
-		case "ok":
-			tr.Status.Authenticated = true
-			tr.Status.User = authenticationv1.UserInfo{Username: rig.UnHex(ans.User)}
-		case "err":
-			if ans.How == "status" {
-				tr.Status.Authenticated = false
-				tr.Status.Error = statusErrMsg
-			} else {
-				return true, nil, errUpstream
-			}
-		default:
+	h := Hit{Inst: s.ep.inst, Ep: rig.Hex(s.ep.name), PickedInst: -2}
+	if top.lastPick != nil && top.lastPick.ep == s.ep {
+		h.ReadyAtPick = top.lastPick.ready
+		h.PickedInst = top.lastPick.inst
+	}
+	top.hits = append(top.hits, h)
+	return top
+}
+
+func (t *stubTokenReviews) Create(ctx context.Context, in *authenticationv1.TokenReview, _ metav1.CreateOptions) (*authenticationv1.TokenReview, error) {
+	w, ep := t.s.w, t.s.ep
+	top := t.s.hit()
+	if top != nil && !top.midDone {
+		top.midDone = true
+		w.runMacros(top.m.Mid2) // the review is in flight
+	}
+	tr := in.DeepCopy()
+	ans := w.tokAnswer(ep.inst, tr.Spec.Token)
+	switch ans.K {
+	case "ok":
+		tr.Status.Authenticated = true
+		tr.Status.User = authenticationv1.UserInfo{Username: rig.UnHex(ans.User)}
+	case "err":
+		if ans.How == "status" {
 			tr.Status.Authenticated = false
+			tr.Status.Error = statusErrMsg
+		} else {
+			return nil, errUpstream
 		}
-		return true, tr, nil
-	})
-	cs.PrependReactor("create", "subjectaccessreviews", func(action clienttesting.Action) (bool, runtime.Object, error) {
-		top := hit()
-		if top != nil && !top.midDone {
-			top.midDone = true
-			w.runMacros(top.m.Mid)
-		}
-		sar := action.(clienttesting.CreateAction).GetObject().(*authorizationv1.SubjectAccessReview).DeepCopy()
-		b, _ := json.Marshal(sar.Spec)
-		ans, known := w.sarAnswer(ep.inst, string(b))
-		if !known && top != nil {
-			top.problem = "the review carries a spec that is not the spec of any attributes of the case: " + string(b)
-		}
-		if ans.K == "err" {
-			return true, nil, errUpstream
-		}
-		sar.Status = authorizationv1.SubjectAccessReviewStatus{Allowed: ans.Allowed, Denied: ans.Denied, Reason: rig.UnHex(ans.Reason)}
-		return true, sar, nil
-	})
+	default:
+		tr.Status.Authenticated = false
+	}
+	return tr, nil
+}
+
+func (t *stubSARs) Create(ctx context.Context, in *authorizationv1.SubjectAccessReview, _ metav1.CreateOptions) (*authorizationv1.SubjectAccessReview, error) {
+	w, ep := t.s.w, t.s.ep
+	top := t.s.hit()
+	if top != nil && !top.midDone {
+		top.midDone = true
+		w.runMacros(top.m.Mid) // the review is in flight
+	}
+	sar := in.DeepCopy()
+	b, _ := json.Marshal(sar.Spec)
+	ans, known := w.sarAnswer(ep.inst, string(b))
+	if !known && top != nil {
+		top.problem = "the review carries a spec that is not the spec of any attributes of the case: " + string(b)
+	}
+	if ans.K == "err" {
+		return nil, errUpstream
+	}
+	sar.Status = authorizationv1.SubjectAccessReviewStatus{Allowed: ans.Allowed, Denied: ans.Denied, Reason: rig.UnHex(ans.Reason)}
+	return sar, nil
+}
+
+func (w *world) newEndpoint(i *instRec, name string, healthy, disabled bool) *epRec {
+	ep := &epRec{inst: i.id, name: name}
+	cs := &stubClient{Clientset: fake.NewSimpleClientset(), w: w, ep: ep}
 	ep.info = clusters.VerifC12AddEndpoint(i.info, name, cs, healthy, disabled)
 	i.eps[name] = ep
 	w.byClient[kubernetes.Interface(cs)] = ep
